@@ -1,0 +1,49 @@
+// Verification hooks. Everything in this file, and every use of it, is compiled only
+// when CHAISCRIPT_VERIF is defined; without it CHAISCRIPT_VERIF_EVENT expands to nothing.
+
+#ifndef CHAISCRIPT_VERIF_HPP_
+#define CHAISCRIPT_VERIF_HPP_
+
+#ifdef CHAISCRIPT_VERIF
+#include <cstddef>
+#include <string_view>
+
+namespace chaiscript::verif {
+  /// Process wide hook table. All members are null / false unless a verification driver installs them.
+  struct Hooks {
+    /// one call per traced state change, made after the change (kind-specific fields, see /verif/DESIGN.md appendix A)
+    void (*event)(const char *kind, const void *obj, std::string_view name, long a, long b, long c, std::string_view name2) = nullptr;
+    /// called before a traced lock blocks on `mutex` (mode 0 shared, 1 unique, 2 recursive)
+    void (*sched_point)(const void *mutex, int mode) = nullptr;
+    /// when true, Dispatch_Engine::get_object ignores the per-node location hint for locals and always searches by name
+    bool disable_lookup_hints = false;
+  };
+
+  inline Hooks &hooks() noexcept {
+    static Hooks h;
+    return h;
+  }
+
+  /// Shape of the calling thread's evaluation stacks, see ChaiScript_Basic::verif_stack_shape
+  struct Stack_Shape {
+    std::size_t stacks = 0;
+    std::size_t scopes_in_top_stack = 0;
+    std::size_t call_params = 0;
+    std::size_t call_params_back = 0;
+    int call_depth = 0;
+    bool saves_enabled = false;
+    std::size_t saves = 0;
+  };
+} // namespace chaiscript::verif
+
+#define CHAISCRIPT_VERIF_EVENT(kind, obj, name, a, b, c, name2)                                                                            \
+  do {                                                                                                                                     \
+    if (auto verif_f = ::chaiscript::verif::hooks().event) {                                                                               \
+      verif_f(kind, obj, name, a, b, c, name2);                                                                                            \
+    }                                                                                                                                      \
+  } while (false)
+#else
+#define CHAISCRIPT_VERIF_EVENT(kind, obj, name, a, b, c, name2) ((void)0)
+#endif
+
+#endif
